@@ -32,10 +32,11 @@ pub fn assign_update_array_optimization(source_unit: SourceUnit) -> HashSet<Loc>
                         let array_subscrip_box_expression_1 =
                             option_array_subscrip_box_expression_1.unwrap();
 
-                        if let Expression::NumberLiteral(_, number, _) =
+                        if let Expression::NumberLiteral(_, number, exponent) =
                             *array_subscrip_box_expression_1
                         {
-                            let index_accessed = number;
+                            //the index is the same only if digits and exponent are the same
+                            let index_accessed = (number, exponent);
 
                             match *box_expression_1 {
                                 Expression::Add(_, _box_expression, _box_expression_1)
@@ -66,10 +67,13 @@ pub fn assign_update_array_optimization(source_unit: SourceUnit) -> HashSet<Loc>
                                                         option_array_subscrip_box_expression_1
                                                             .unwrap();
 
-                                                    if let Expression::NumberLiteral(_, number, _) =
-                                                        *array_subscrip_box_expression_1
+                                                    if let Expression::NumberLiteral(
+                                                        _,
+                                                        number,
+                                                        exponent,
+                                                    ) = *array_subscrip_box_expression_1
                                                     {
-                                                        let _index_accessed = number;
+                                                        let _index_accessed = (number, exponent);
 
                                                         if _index_accessed == index_accessed {
                                                             optimization_locations.insert(loc);
@@ -99,10 +103,11 @@ pub fn assign_update_array_optimization(source_unit: SourceUnit) -> HashSet<Loc>
                                                         if let Expression::NumberLiteral(
                                                             _,
                                                             number,
-                                                            _,
+                                                            exponent,
                                                         ) = *array_subscrip_box_expression_1
                                                         {
-                                                            let _index_accessed = number;
+                                                            let _index_accessed =
+                                                                (number, exponent);
 
                                                             if _index_accessed == index_accessed {
                                                                 optimization_locations.insert(loc);
